@@ -3,6 +3,7 @@ import LP.Props.C03Fp
 import LP.Props.C05ModP
 import LP.Props.C05FpDiv
 import LP.Props.C05FpIrr
+import LP.Props.C05CertModP
 #print axioms LP.Factor.toPolyZ_mul
 #print axioms LP.Factor.toPolyZ_pow
 #print axioms LP.Factor.toPolyZ_trim
@@ -20,3 +21,5 @@ import LP.Props.C05FpIrr
 #print axioms LP.FPoly.monics_complete
 #print axioms LP.FPoly.irreducible_of_no_small_monic_divisor
 #print axioms LP.FPoly.irreducibleFp_sound
+#print axioms LP.leadingCoeff_toPolyZ
+#print axioms LP.C05_certModP_sound
